@@ -212,7 +212,7 @@ func execControlRW(vec J, out *Writer) {
 					// two members of the struct carry the same field name: the paragraph still has that field once
 					err = enc.Encode(encDup{A: S(v["Name"]), B: S(v["Name"]), S: S(v["Comment"])})
 				} else {
-					err = enc.Encode(encProbe{Name: S(v["Name"]), Comment: S(v["Comment"])})
+					err = enc.Encode(encProbe{Name: S(v["Name"]), Comment: S(v["Comment"]), Notes: S(v["Notes"])})
 				}
 				if err != nil {
 					return
@@ -426,6 +426,7 @@ func (f *faultySink) Write(p []byte) (int, error) {
 type encProbe struct {
 	Name    string `required:"true"`
 	Comment string
+	Notes   string `multiline:"true"`
 }
 
 type encDup struct {
